@@ -492,9 +492,13 @@ class Gen:
             self.w.do('set_status', ref='tip:' + b, state=st)
         qs = [b for b in sorted(heads) if b.startswith('q/') and
               not b.startswith('q/w/')]
-        if qs:
-            self.run('commit', 'tip:' + self.rng.choice(qs))
-            self.run('commit', 'tip:' + self.rng.choice(qs + qw))
+        # a build report on each queue tip in turn (an evaluation started
+        # from a stabilization or an older development queue sees the same
+        # queues as one started from the newest)
+        self.rng.shuffle(qs)
+        for q in qs:
+            if q in self.w.refs()[0]:
+                self.run('commit', 'tip:' + q)
 
     def op_manual_on_middle_w(self):
         """a commit pushed by hand on an intermediate integration branch whose
